@@ -98,8 +98,9 @@ def main():
             scan(logic)
             tab = Tableau(logic, Argument(argstr), max_steps=max_steps)
 
-            def check_branches(step):
-                for bi, b in enumerate(tab):
+            def check_branches(step, which=None):
+                # closed branches never change again: only the given branches are re-derived
+                for bi, b in (enumerate(tab) if which is None else which):
                     cons, wor = derive(b)
                     nc, nw = b.new_constant(), b.new_world()
                     what = []
@@ -117,7 +118,9 @@ def main():
             check_branches(0)
             while True:
                 snap = {}
-                for b in tab:
+                live = [(None, b) for b in tab.open]
+                nb = len(tab)
+                for _, b in live:
                     cons, wor = derive(b)
                     snap[id(b)] = (cons, wor, b.new_constant(), b.new_world())
                 e = tab.step()
@@ -155,7 +158,9 @@ def main():
                         rec['intro'].append(item)
                         if w in pre[1]:
                             rec['bad'].append(item)
-                check_branches(rec['steps'])
+                index = {id(b): i for i, b in enumerate(tab)}
+                check_branches(rec['steps'], [(index.get(id(b), -1), b) for _, b in live] +
+                               [(i, tab[i]) for i in range(nb, len(tab))])
             rec['verdict'] = dict(valid=tab.valid, invalid=tab.invalid, premature=tab.premature)
             if exported < export:
                 for b in tab:
